@@ -34,14 +34,15 @@ def run(chk, args):
     else:
         models = C05.oriented_models()
         chk.notes["oriented_models"] = models
-        use = models if thorough else [m for m in QUICK if m in models]
+        use = models
         rng = random.Random(chk.seed)
         scen = []
         tid = 0
         for m in use:
             for k in range(12 if thorough else 3):
                 tid += 1
-                scen.append({"tid": tid, "model": m, "seed": rng.randrange(1 << 30), "random": k > 0})
+                kind = "default" if k == 0 else ("perturbed" if k % 2 else "random")
+                scen.append({"tid": tid, "model": m, "seed": rng.randrange(1 << 30), "kind": kind})
     work = vlib.scratch("c12")
     try:
         by_model = {}
@@ -82,7 +83,7 @@ def run(chk, args):
     finally:
         shutil.rmtree(work, ignore_errors=True)
     chk.cov["rule"] = (
-        "oriented models x (default + random() parameter sets) x q with q*size in {0.5, 2, 6}; the particle-frame "
+        "oriented models x (default, default with sizes and ratios moved by independent factors 0.6..1.6, random() parameter sets) x q with q*size in {0.5, 2, 6}; the particle-frame "
         "function is evaluated on 24x16, 37x24 and 48x32 product rules (x1, x1, x2 in phi for symmetric shapes); a case "
         "counts as non-trivial when the three rules agree to 1e-6 (convergence premise).")
     chk.assumptions += [
